@@ -23,7 +23,7 @@ DataNames ==
 
 \* commands handled at the server level (sessions, databases, transactions), see Server.tla
 ServerNames == {"SELECT", "FLUSHDB", "FLUSHALL", "DBSIZE", "PING", "ECHO", "MULTI", "EXEC", "DISCARD",
-                "WATCH", "UNWATCH", "HELLO", "QUIT", "CLIENT"}
+                "WATCH", "UNWATCH", "HELLO", "QUIT", "CLIENT", "BLPOP", "BRPOP", "BLMOVE", "BRPOPLPUSH", "BLMPOP"}
 
 Names == DataNames \cup ServerNames
 NameOf == [b \in {B(s) : s \in Names} |-> CHOOSE s \in Names : B(s) = b]
